@@ -159,7 +159,7 @@ func runC15(args []string) error {
 	}
 	r := rf.rng()
 	sum := &Summary{Engine: "c15", Seed: rf.Seed,
-		Rule: "real table.Manager.LeaseTable/ReturnTable for 2-3 managers (node ids) over one metadata store with the real kv.LFSM compare-and-set semantics, every store operation released by a scheduler (two waiting writes optionally committed together, i.e. applied by ONE LFSM.Update call): ALL interleavings of two calls (lease/lease, lease/return, with long and already-expired durations) enumerated, plus seeded random schedules of 2-3 nodes x 1-4 calls; oracle: at no point two nodes with a granted, unreturned, unexpired lease; observed: every call's outcome in completion order and the final holder; plus real replication workers (lease routine) of 2-3 nodes over a metadata shard with per-node replicas, competing and with the holder cut off: never two workers with the leased flag set; distinct = distinct (scripts, schedule); non-trivial = both nodes' operations interleave inside a call"}
+		Rule: "real table.Manager.LeaseTable/ReturnTable for 2-3 managers (node ids) over one metadata store with the real kv.LFSM compare-and-set semantics, every store operation released by a scheduler (two waiting writes optionally committed together, i.e. applied by ONE LFSM.Update call): ALL interleavings of two calls (lease/lease, lease/return, with long and already-expired durations; also after a lease that was taken and returned, so that a record re-appears under the same key) enumerated, plus seeded random schedules of 2-3 nodes x 1-4 calls; oracle: at no point two nodes with a granted, unreturned, unexpired lease; observed: every call's outcome in completion order and the final holder; plus real replication workers (lease routine) of 2-3 nodes over a metadata shard with per-node replicas, competing and with the holder cut off: never two workers with the leased flag set; distinct = distinct (scripts, schedule); non-trivial = both nodes' operations interleave inside a call"}
 	cf := &CasesFile{Requires: []string{"Model.Bytes", "Model.Obs", "Model.Lease", "Run.C15Run"}, CaseType: "c15case", Check: "c15_check", Show: "c15_model"}
 	hk := sum.hist("schedules")
 	seen := map[string]bool{}
@@ -225,7 +225,7 @@ func runC15(args []string) error {
 	calls := []leaseCall{{lease: true}, {lease: true, expired: true}, {lease: false}}
 	for _, c1 := range calls {
 		for _, c2 := range calls {
-			for _, pre := range [][]leaseCall{nil, {{lease: true}}, {{lease: true, expired: true}}} {
+			for _, pre := range [][]leaseCall{nil, {{lease: true}}, {{lease: true, expired: true}}, {{lease: true}, {lease: false}}, {{lease: true, expired: true}, {lease: false}}} {
 				for bits := 0; bits < 64; bits++ {
 					b := bits
 					s1 := append(append([]leaseCall{}, pre...), c1)
